@@ -249,10 +249,7 @@ def is_site(o):
 
 def root_param(o):
     """Parameter name an origin belongs to (None for sites / globals)."""
-    if o.startswith(('P:', 'E:')):
-        return o[2:]
-    if o.startswith('S:'):
-        return 'self'
+XX
     return None
 
 
@@ -430,63 +427,57 @@ def spec_kinds(spec):
 
 
 def param_av(spec, p, heap):
-    """Abstract value of parameter p declared with descriptor `spec`; fills the heap entries P:p / E:p."""
+    """Abstract value of parameter p declared with descriptor `spec`; fills the heap entries P:p / N:p.
+
+    Identities: P:p the object itself; N:p containers nested inside p; E:p ndarray buffers (or anything untyped)
+    reachable inside p."""
     spec = parse_spec(spec)
-    P, E = 'P:' + p, 'E:' + p
+    P, E, N = 'P:' + p, 'E:' + p, 'N:' + p
 
-    def inner(s, depth):
-        """value stored inside p (depth >= 1): identities are E:p"""
-        if s.alts:
-            return joins(inner(a, depth) for a in s.alts)
-        return build(s, E, depth)
-
-    def build(s, me, depth):
+    def build(s, depth):
+        buf = P if depth == 0 else E
+        me = P if depth == 0 else N
         n = s.name
         if s.alts:
-            return joins(build(a, me, depth) for a in s.alts)
+            return joins(build(a, depth) for a in s.alts)
         if s.const is not NOCONST:
             return const_av(s.const)
         if n in ('num', 'bool', 'str', 'none', 'slice', 'type'):
             return NONE if n == 'none' else AV([n])
         if n in _ARRND:
-            return AV(['arr'], org=[me], ndim=_ARRND[n])
+            return AV(['arr'], org=[buf], ndim=_ARRND[n])
         if n == 'objarr':
-            e = inner(s.args[0], depth + 1) if s.args else AV(ALLK, org=[E])
+            e = build(s.args[0], depth + 1) if s.args else AV(ALLK, org=[E])
             _heap_join(heap, me, e)
             return AV(['arr'], org=[me], objarr=True)
         if n in _LIKEND:
-            _heap_join(heap, me, AV(['num', 'list', 'arr', 'tuple'], org=[E]))
-            return AV(['arr', 'list', 'tuple'], org=[me], ndim=_LIKEND[n])
+            _heap_join(heap, me, AV(['num', 'list', 'tuple'], org=[N]))
+            _heap_join(heap, N, AV(['num', 'list', 'tuple'], org=[N]))
+            return AV(['arr', 'list', 'tuple'], org=[buf if buf == P else E, me], ndim=_LIKEND[n])
         if n == 'tt':
             _heap_join(heap, me, AV(['arr'], org=[E], ndim=3))
             return AV(['list'], org=[me], minlen=2)
-        if n in ('list', 'set'):
-            e = inner(s.args[0], depth + 1) if s.args else AV(ALLK, org=[E])
+        if n in ('list', 'set', 'dict'):
+            e = build(s.args[0], depth + 1) if s.args else AV(ALLK, org=[E])
             _heap_join(heap, me, e)
             return AV([n], org=[me])
-        if n == 'dict':
-            e = inner(s.args[0], depth + 1) if s.args else AV(ALLK, org=[E])
-            _heap_join(heap, me, e)
-            return AV(['dict'], org=[me])
         if n == 'tuple':
             if s.args:
-                return AV(['tuple'], items=[inner(a, depth + 1) for a in s.args], minlen=len(s.args))
+                return AV(['tuple'], items=[build(a, depth + 1) for a in s.args], minlen=len(s.args))
             return AV(['tuple'], elem=AV(ALLK, org=[E]))
         if n == 'gen':
             return AV(['gen'], gen=['param'])
         if n == 'seed':
             return AV(['none', 'num', 'gen'], gen=['seed'])
-        if n == 'cb':
-            return AV(['func'], fn=[('cb', p)])
-        if n == 'func':
+        if n in ('cb', 'func'):
             return AV(['func'], fn=[('cb', p)])
         if n == 'any':
-            return AV(ALLK, org=[me], fn=[('cb', p)])
+            return AV(ALLK, org=[buf], fn=[('cb', p)])
         if n.startswith('obj'):
             return AV(['obj'], org=[me], cls=n[4:] or None)
         raise ValueError(f'type {n!r} not usable for a parameter')
 
-    return build(spec, P, 0)
+    return build(spec, 0)
 
 
 def _heap_join(heap, site, av):
